@@ -437,9 +437,18 @@ def offerGatePinned (offer : Offer) (bidAmt : Int) (minUnits : Nat) : Bool :=
   decide (offer.pushAmt ≤ offer.capacity) &&
   offer.capacity == bidAmt && offer.capacity == wrapI64 (Int.ofNat minUnits * Int.ofNat Gen.C17.baseSupplyUnit)
 
+/-- `funding.Manager.OfferSidecar` (inbound market), the only place where an offer is created and signed: the
+`CheckOfferParams` sanity checks and – after the second `fix:` commit – a non-zero lease duration.  An offer that
+passes `validateAndSignTicketForOrder` carries a valid signature of the provider's own account key, i.e. was made
+here. -/
+def offerSidecarOK (offer : Offer) : Bool :=
+  offer.leaseDurationBlocks != 0 &&
+  offer.capacity != 0 && Int.tmod offer.capacity (Int.ofNat Gen.C17.baseSupplyUnit) == 0 &&
+  decide (offer.pushAmt ≤ offer.capacity)
+
 /-- the gate after the `fix:` commit (`order.CheckOfferMatchesBid`): additionally the parameters the recipient
 takes from the offer must be the bid's; an offer lease duration of zero is treated as "unspecified" (kept so
-that the package's existing tests pass unedited – the residual is recorded as an open finding). -/
+that the package's existing tests pass unedited; such offers are refused where they are made, `offerSidecarOK`). -/
 def offerGate (offer : Offer) (b : Bid) (bidAmt : Int) (minUnits : Nat) : Bool :=
   offerGatePinned offer bidAmt minUnits &&
   (offer.leaseDurationBlocks == 0 || offer.leaseDurationBlocks == b.kit.leaseDuration) &&
